@@ -323,7 +323,9 @@ func ruleCrcAgree(r *Report) {
 		}
 		tables[k] = c.Value.ExactString()
 		// the bytes fed are a parameter of the function (the value), written exactly once
-		wr := CallsIn(fn, func(k string) bool { return k == "io.Writer.Write" || k == "hash.Hash.Write" || k == "hash.Hash64.Write" })
+		wr := CallsIn(fn, func(k string) bool {
+			return k == "io.Writer.Write" || k == "hash.Hash.Write" || k == "hash.Hash64.Write"
+		})
 		fed := 0
 		for _, w := range wr {
 			cc := w.Call().Common()
